@@ -36,6 +36,18 @@ def body(chk: core.Check):
         _renamers.check_method_names(chk, quick)
         _renamers.check_field_header_disambiguated(chk, quick)
         _renamers.check_convert_uri(chk, quick)
+    if chk.only("wire"):
+        # RPC path on the wire stays the original (keyword-named / transport-unsafe RPCs): concrete diff of the emitted
+        # gRPC stub tables against the descriptors, shared with C03
+        from checks import c03 as _c03
+        from lib import apis, gen
+        g = gen.generate(apis.client_api(), parameter="transport=grpc+rest", service_yaml=apis.CLIENT_SERVICE_YAML)
+        chk.programs += 1
+        oks, bad, _tables = _c03.table_diff(g)
+        for k in oks:
+            chk.ok("rpc-wire-path (concrete diff)", k)
+        for k, text in bad.items():
+            chk.violation(k, text, {"kind": "stub-table", "diff_key": k})
     if chk.only("names"):
         hm = ch.load_module(H)
         chk.encoded("gapic/schema/api.py: API.build.disambiguate_keyword_sanitize_fname (+ invalid_module_names)", hm.LIFTED_SRC)
@@ -56,6 +68,11 @@ def body(chk: core.Check):
 def replay(chk, data):
     if data.get("kind") == "renamer":
         return _renamers.replay(data)
+    if data.get("kind") == "stub-table":
+        from checks import c03 as _c03
+        from lib import apis, gen
+        g = gen.generate(apis.client_api(), parameter="transport=grpc+rest", service_yaml=apis.CLIENT_SERVICE_YAML)
+        return _c03.table_diff(g)[1].get(data["diff_key"])
     rep, detail = ch.replay_call(os.path.join(core.VERIF, data["harness"]), data["call"], data.get("env"))
     return f"{data['call']} -> {detail}" if rep else None
 
